@@ -78,6 +78,7 @@ def _jtmp():
     return {"_JAVA_OPTIONS": "-Djava.io.tmpdir=" + d}
 
 
+DRIFT_RECORDS = []   # indices of the records of the last validated log that Trace_HttpReq judged "drift"
 HUNG = set()      # runtimes whose parser did not return (watchdog of the harness)
 
 
@@ -124,7 +125,16 @@ def _replay_vectors(ctx, bins, lines, label, account=True):
         ctx.cov["traces_validated_against_impl"] += s["cases"]
         ctx.add_part("vectors %s, %s parser" % (label, rt), cases=s["cases"], parses=s["parses"], roundtrips=s["roundtrips"],
                      read_plans_max_per_case=s["plans_max"], mismatches=s["mismatches"],
-                     serialised_with_unread_trailing_bytes=s["trailing_cases"], trailing_example=s["trailing_example"])
+                     serialised_with_unread_trailing_bytes=s["trailing_cases"], trailing_example=s["trailing_example"],
+                     requests_with_a_lenient_observable=s.get("lenient_cases", 0), drifts=s.get("drifts", 0))
+        if s.get("drifts"):
+            # differences confined to observables the statement leaves free for that request (HttpReqSyntax, Lenient),
+            # or beyond it (which value `get` picks, how many bytes were requested): reported, never a violation
+            f = s["drift_first"]
+            ctx.drift("C02 lenient observables", "%s parser: %d parse(s) differ from the specification only where the property leaves "
+                      "freedom; first: %s on %s (differs: %s, lenient: %s)" % (rt, s["drifts"], f[0]["what"], f[0]["wire"][:300],
+                                                                              ",".join(f[0]["differs"]), ",".join(f[0]["lenient"])),
+                      {"kind": "httpreq-drift", "runtime": rt, "label": label, "first": f})
         for x in s["samples"][:3] if rt == "threaded" else s["samples"][:1]:
             ctx.sample(x)
         if s["mismatches"]:
@@ -140,11 +150,13 @@ def _validate_trace(ctx, path, name, n, account=True):
                 work_id="c02", deque=True, heap="4g")
     if account:
         ctx.add_tlc(name, t)
+    DRIFT_RECORDS[:] = []
     rejected = []
+    for pr in t.prints:
+        if isinstance(pr, dict) and "rejected" in pr:
+            rejected = pr["rejected"]
+            DRIFT_RECORDS[:] = pr.get("drift", [])
     if t.violation:
-        for pr in t.prints:
-            if isinstance(pr, dict) and "rejected" in pr:
-                rejected = pr["rejected"]
         if t.violation != "invariant" or not rejected:
             raise vlib.ToolError("Trace_HttpReq failed in an unexpected way: %s\n%s" % (t.violation, t.out[-1500:]))
     elif t.distinct != n + 1:
@@ -289,6 +301,10 @@ def run(tier, replay):
                      with_body_of_8KiB_or_more=sum(1 for r in recs if r["body"][0] >= 8192),
                      max_head_bytes=max(len(r["head"]) for r in recs), max_body_bytes=max(r["body"][0] for r in recs), rejected=len(rej))
         ctx.sample({"recorded": _short(recs[0])}, limit=12)
+        if DRIFT_RECORDS:
+            ctx.drift("C02 lenient observables", "%d recorded request(s) differ from the specification only in an observable that is lenient "
+                      "for them; first: %s" % (len(DRIFT_RECORDS), json.dumps(_short(recs[DRIFT_RECORDS[0] - 1]))[:600]),
+                      {"kind": "httpreq-trace-drift", "records": [recs[i - 1] for i in DRIFT_RECORDS[:3]]})
         if rej:
             ctx.violation("%d recorded request(s) are not explained by the specification (parse, segmentation or round trip); first: %s" % (
                 len(rej), json.dumps(_short(recs[rej[0] - 1]))[:900]),
@@ -298,10 +314,10 @@ def run(tier, replay):
     # (only after a clean validation: on a tree that already fails, the verdict is the violation, not the self-test)
     if not ctx.violations:
         bad = copy.deepcopy(keep[-1])
-        bad["exp"]["p"] = bad["exp"]["p"] + "x"
+        bad["exp"]["v"] = bad["exp"]["v"] + "x"
         s = _replay_vectors(ctx, bins[:1], [bad], "self-test", account=False)[0]
         if s["mismatches"] == 0:
-            raise vlib.ToolError("self-test: the harness accepted a vector whose expected path was altered")
+            raise vlib.ToolError("self-test: the harness accepted a vector whose expected version was altered")
         ok_rec = next(r for r in recs if r["got"]["ok"] and r["got"]["nh"] > 0 and not (rej and recs.index(r) + 1 in rej))
         bad_rec = copy.deepcopy(ok_rec)
         bad_rec["got"]["h"][0][1][0] = bad_rec["got"]["h"][0][1][0] + ["!"]
